@@ -1612,6 +1612,10 @@ def run(ctx: core.Context) -> int:
             ctx.sub('multi').merge(r)
         ctx.sub('multi').counters['history_depth'] = depth
         ctx.log('multi:', ctx.sub('multi').summary())
+    if want('late_sink'):
+        for r in core.pmap(w_late_sink, core.split(late_sink_cases(quick), ctx.jobs * 2), ctx.jobs):
+            ctx.sub('late_sink').merge(r)
+        ctx.log('late_sink:', ctx.sub('late_sink').summary())
     if want('sched'):
         st = ctx.sub('sched')
         bound = 1 if quick else 2
@@ -1664,9 +1668,91 @@ def replay(v: core.Violation):
     if 'prefix' in c:
         res = run_sched(c['params'], c['prefix'], None)
         return [m for ck, _, m in res['viol'] if ck == v.check]
+    if 'late_sink' in c:
+        return [m for ck, _, m in run_late_sink(c['late_sink']) if ck == v.check]
     if 'slc' in c:
         viol, _ = run_slc_case(c['slc'])
         return [m for ck, _, m in viol if ck == v.check]
     if 'at' in c:
         return replay_at(v)
     return []
+
+
+# ---------------------------------------------------------------------------
+# late sinks: data arrives on several data links BEFORE the application attaches their sinks (between the DLC open event
+# and `dlc.sink = ...`); what each link queued meanwhile belongs to that link alone and is handed over, in order, when
+# its own sink is attached - in whatever order the sinks are attached
+# ---------------------------------------------------------------------------
+def late_sink_cases(quick):
+    out = []
+    chsets = [(1, 2), (1, 3), (1, 2, 3)]
+    for chs in chsets:
+        for direction in ('c2s', 's2c', 'both'):
+            for order in itertools.permutations(chs):
+                for writes in ([(c, 1) for c in chs] * 2, [(chs[0], 1), (chs[-1], 2), (chs[0], 3)], [(c, 1) for c in reversed(chs)]):
+                    out.append({'chs': list(chs), 'dir': direction, 'attach_order': list(order), 'writes': [list(x) for x in writes]})
+    return out
+
+
+def run_late_sink(case):
+    viol = []
+    chs = case['chs']
+    with Rig(channels={c: MULTI_CHANNELS[c] for c in chs}) as r:
+        w = r.w
+        held = {}
+        r_acceptor = r._acceptor
+
+        def acceptor(dlc):  # the application keeps the DLC and attaches its sink later
+            ch = dlc.dlci >> 1
+            r.gen[ch] = r.gen.get(ch, 0) + 1
+            r.s_dlc[ch] = dlc
+            held[(1, ch)] = dlc
+
+        r.server.acceptors = {ch: acceptor for ch in r.server.acceptors} if hasattr(r.server, 'acceptors') else None
+        if r.server.acceptors is None:
+            return [('late_sink_harness', {}, 'rfcomm.Server has no acceptors table')]
+        w.run(r.start())
+        for ch in chs:
+            mfs_c, k_c, _, _ = r.channels[ch]
+            dlc = w.run(r.mux.open_dlc(ch, max_frame_size=mfs_c, initial_credits=k_c))
+            r.c_dlc[ch] = dlc
+            held[(0, ch)] = dlc
+        w.settle()
+        expect = {}
+        for i, (ch, tag) in enumerate(case['writes']):
+            data = pattern(0x30 + ch, i * 7, 5 + tag)
+            if case['dir'] in ('c2s', 'both'):
+                r.c_dlc[ch].write(data)
+                expect.setdefault((1, ch), bytearray()).extend(data)
+            if case['dir'] in ('s2c', 'both'):
+                d2 = pattern(0x60 + ch, i * 5, 4 + tag)
+                r.s_dlc[ch].write(d2)
+                expect.setdefault((0, ch), bytearray()).extend(d2)
+            w.settle()
+        got = {}
+        for ch in case['attach_order']:
+            for end in (1, 0):
+                buf = got.setdefault((end, ch), bytearray())
+                held[(end, ch)].sink = buf.extend
+        w.settle()
+        loop_exceptions(w)
+        for key in sorted(set(expect) | set(got)):
+            e, g = bytes(expect.get(key, b'')), bytes(got.get(key, b''))
+            if e != g:
+                end, ch = key
+                kind = 'lost' if len(g) < len(e) and e.startswith(g) else 'foreign_or_reordered'
+                viol.append(('late_sink_stream', {'kind': kind, 'end': 'server' if end else 'client', 'links': len(chs)},
+                             f'late sinks {case}: {"server" if end else "client"} end of channel {ch} was handed {g.hex()} when its sink was attached, its peer had written {e.hex()}'))
+    return viol
+
+
+def w_late_sink(cases):
+    st = core.Stats('late_sink')
+    for case in cases:
+        res = run_late_sink(case)
+        st.case(case, None)
+        for check, sig, msg in res:
+            st.violation(check, sig, msg, {'late_sink': case})
+    if cases:
+        st.samples.append({'case': cases[0]})
+    return st
